@@ -33,7 +33,7 @@ class StringNode(BaseNode, SelectNode):
         """
         if value is None and self.value_raw is not None:
             self.value = StringType(self.cast_value())
-        elif value:
+        elif value is not None:
             self.value = StringType(value)
         else:
             self.value = None
